@@ -31,6 +31,7 @@ def run(chk, tier):
         cr.check_resolve(chk, prog, cfg, rule="R1.5")
         cr.check_finish(chk, prog, cfg, rule="R1.6")
         cr.check_interner_ops(chk, prog, cfg, rule="R1.6b")
+        cr.check_builder_ops(chk, prog, cfg, rule="R12.2")   # "from the runtime builder": ids handed out by the builder are the positions finish() uses
         # R1.7: retain (shared with C10)
         c10.check_config(chk, prog, cfg)
         # R1.8: IntoPortable exhaustiveness (shared with C02)
